@@ -2,4 +2,5 @@ SPECIFICATION Spec
 CONSTANTS
   N = 4
   AllPairs = TRUE
+  Sparse = 0
 CHECK_DEADLOCK FALSE
